@@ -394,6 +394,7 @@ CLAUSES = {
 
 
 def explore(ctx):
+    ctx.use_thorough_bounds('thorough bounds take about ten seconds')
     if ctx.want("construct"):
         ctx.bound("constructions", CONSTRUCTIONS)
         ctx.bound("bases", [n for n, _ in V.BASES])
